@@ -26,6 +26,26 @@ def extra_runs(ctx, n):
     return runs
 
 
+def threshold_runs(ctx, n_rows, n_thresholds):
+    """MCS rows re-run with the threshold set to observed confidences (and their neighbours): the confident count must
+    still be the number of rows solved by the MCS method"""
+    mix = pipeline.workload_mix(ctx)
+    rows = [(inp, r) for inp, r in zip(mix["inputs"], mix["out"] or [])
+            if r.get("solved_by") == "mcs-based" and pipeline.is_small(inp, 40)]
+    ctx.rng.shuffle(rows)
+    rows = rows[:n_rows]
+    inputs = [inp for inp, _ in rows] + ["CCO>>CC=O", "C>>C"]
+    confs = sorted({r["confidence"] for _, r in rows if r.get("confidence") is not None})
+    ts = []
+    for c in ctx.rng.sample(confs, min(n_thresholds, len(confs))):
+        ts += [round(c, 3), round(round(c, 3) + 0.0004, 4)]
+    out = []
+    for t in ts:
+        tr = pipeline.traced_run(inputs, n_jobs=12, threshold=t, batch_size=ctx.rng.choice([None, 5]))
+        out.append(tr)
+    return out
+
+
 def cli_stats_case(ctx):
     """the command-line entry point writes <output>.stats next to the CSV: it must agree with the rows of that CSV"""
     import csv
@@ -67,6 +87,10 @@ def search(ctx):
         statement(ctx, tr)
         if ctx.violations:
             return
+    for tr in threshold_runs(ctx, 40, 10):
+        statement(ctx, tr)
+        if ctx.violations:
+            return
 
 
 def run(ctx):
@@ -89,6 +113,10 @@ def run(ctx):
             if t2["error"]:
                 ctx.corr_break("Pipeline:run-raised", t2["inputs"], "model never raises", t2["error"])
             statement(ctx, t2)
+        for t3 in threshold_runs(ctx, 14 if ctx.tier == "quick" else 80, 2 if ctx.tier == "quick" else 12):
+            pipeline.compare_trace(ctx, t3)
+            statement(ctx, t3)
+            ctx.count("threshold-run")
         cli_stats_case(ctx)
         ctx.sample({"stats": tr["stats"], "rows": len(tr["out"] or [])})
     return ctx.finish(search)
